@@ -445,6 +445,8 @@ CORPUS["C18"] = [
 ]
 
 CORPUS["C19"] = [
+    B('layer index from altitude by digitize on the layer bases above the ground', (ATM, '    i = np.zeros_like(h, dtype=int)\n    for j in range(1, len(H_b)):\n        i[H_b[j] <= h] = j\n', '    i = np.digitize(h, H_b[1:])\n')),
+    M('digitize with right=True (a boundary falls into the lower layer)', (ATM, '    i = np.zeros_like(h, dtype=int)\n    for j in range(1, len(H_b)):\n        i[H_b[j] <= h] = j\n', '    i = np.digitize(h, H_b[1:], right=True)\n')),
     B('layer index from altitude as a count of layer bases at or below h', (ATM, '    i = np.zeros_like(h, dtype=int)\n    for j in range(1, len(H_b)):\n        i[H_b[j] <= h] = j\n', '    i = np.count_nonzero(H_b[1:] <= h[..., np.newaxis], axis=-1)\n')),
     M('count of layer bases strictly below h (a boundary falls into the lower layer)', (ATM, '    i = np.zeros_like(h, dtype=int)\n    for j in range(1, len(H_b)):\n        i[H_b[j] <= h] = j\n', '    i = np.count_nonzero(H_b[1:] < h[..., np.newaxis], axis=-1)\n')),
     B('layer index from pressure by searchsorted on the reversed table', (ATM, '    i = np.zeros_like(P, dtype=int)\n    for j in range(1, len(P_b)):\n        i[P_b[j] >= P] = j\n', '    i = (len(P_b) - 1) - np.searchsorted(P_b[:0:-1], P, side="left")\n')),
